@@ -4,39 +4,47 @@ pub mod rxstate;
 pub mod sender;
 pub mod c01;
 pub mod c02;
+pub mod c03;
+pub mod c04;
 pub mod c05;
 pub mod c06;
 pub mod c07;
 pub mod c08;
 pub mod c09;
+pub mod c10;
 pub mod c11;
 pub mod c12;
 pub mod c13;
 pub mod c14;
 pub mod c15;
+pub mod c16;
 pub mod c17;
 pub mod c18;
 pub mod c19;
 pub mod c20;
 
 pub fn ids() -> Vec<&'static str> {
-    vec!["C01", "C02", "C05", "C06", "C07", "C08", "C09", "C11", "C12", "C13", "C14", "C15", "C17", "C18", "C19", "C20"]
+    vec!["C01", "C02", "C03", "C04", "C05", "C06", "C07", "C08", "C09", "C10", "C11", "C12", "C13", "C14", "C15", "C16", "C17", "C18", "C19", "C20"]
 }
 
 pub fn get(id: &str) -> Option<Property> {
     Some(match id {
         "C01" => c01::property(),
         "C02" => c02::property(),
+        "C03" => c03::property(),
+        "C04" => c04::property(),
         "C05" => c05::property(),
         "C06" => c06::property(),
         "C07" => c07::property(),
         "C08" => c08::property(),
         "C09" => c09::property(),
+        "C10" => c10::property(),
         "C11" => c11::property(),
         "C12" => c12::property(),
         "C13" => c13::property(),
         "C14" => c14::property(),
         "C15" => c15::property(),
+        "C16" => c16::property(),
         "C17" => c17::property(),
         "C18" => c18::property(),
         "C19" => c19::property(),
